@@ -391,6 +391,10 @@ def evaluate(ctx, batch, real_cmd, model_cmd, env, problems, reasons):
                            f"WARNING (RealNode reads NUMBER elements with ReadReal, which demands a decimal point): {r!r}")
             elif mutated and parse_r(r).get("sev") in ("NULL", "USERMSG"):
                 why = f"malformed aggregate {text!r} of {kind} read without any error: {r!r}"
+                if mutated == "stray":
+                    vkey = AGG_STRAY_KEY
+                    why = (f"aggregate {text!r} of {kind}: a `/` that starts no comment, or a `\\` that starts no print control "
+                           f"directive, in front of an element is dropped by ReadTokenSeparator and nothing is reported: {r!r}")
                 if mutated == "missing" and kind in AGG_MISSING_KINDS and "unset" in parse_r(r).get("val", ""):
                     vkey = AGG_MISSING_KEY
                     why = (f"aggregate {text!r} of {kind} with an element missing: the element is stored as unset and nothing is "
@@ -685,6 +689,7 @@ AGG_LAYOUT = ["", " ", "/*c*/", " /* , ) */ ", "\n", "/**//***/"]
 # decided from the input and the answer's shape only — anything else that goes wrong on an aggregate keeps its own key
 AGG_NUMBER_KEY = "agg:number-element-spelled-as-integer"    # all-grammar LIST OF NUMBER with an integer-spelled element: right values, WARNING
 AGG_MISSING_KEY = "agg:missing-element-read-as-unset"       # an element position left empty, kinds below: unset element, no error
+AGG_STRAY_KEY = "agg:stray-slash-or-backslash-dropped"      # `/` not followed by `*` / incomplete `\\N\\` in front of an element: dropped, no error
 AGG_MISSING_KINDS = ("STRING", "BOOLEAN", "LOGICAL", "ENUM", "REF")
 
 
@@ -732,8 +737,13 @@ def aggregate_batch(ctx, quick):
         t1, t2 = pool[0][0], pool[-1][0]
         for txt in [f"({t1} {t2}),", f"({t1},{t2}", f"({t1},{t2} ", f"(({t1}),{t2}),",
                     f"({t1},x),", f"({t1};{t2}),", f"({t1},$),", f"{t1},{t2}),", f"[{t1}],", f"({t1}/*never closed ,{t2}),",
-                    f"({t1}\x00,{t2}),"]:
+                    f"({t1}\x00,{t2}),", f"({t1} / ,{t2}),", f"({t1},{t2} / ),", f"({t1} \\ ,{t2}),"]:
             add(kind, txt, None, True)
+        # a `/` that starts no comment, or a `\` that starts no complete print control directive, in front of an element: not a
+        # token separator - ReadTokenSeparator must not drop it (class AGG_STRAY_KEY when it does and the rest reads cleanly)
+        for txt in [f"({t1}, / {t2}),", f"({t1},/{t2}),", f"(/ {t1},{t2}),", f"({t1},//{t2}),", f"({t1}, \\ {t2}),",
+                    f"({t1}, \\N {t2}),", f"({t1}, \\x\\ {t2}),", f"(\\{t1},{t2}),"]:
+            add(kind, txt, None, "stray")
         # an element that is not there at all
         for txt in [f"({t1},,{t2}),", f"({t1},),", f"(,{t1}),", f"(/*c*/,{t1}),", f"({t1}, /*c*/ ,{t2}),", f"({t1},{t2}, ),"]:
             add(kind, txt, None, "missing")
